@@ -47,6 +47,7 @@ type TraceRun struct {
 	Calls   []CallRec `json:"calls"`
 	PostStk int       `json:"poststack"` // len(VM.Stack()) after Run (caller-owned VM only, else -1)
 	PostScp bool      `json:"postscope"` // VM.Scope() != nil after Run
+	WfOnly  bool      `json:"wfonly"`    // no run: only the program's well-formedness is to be judged
 }
 
 // recorder is a vm.VerifTracer collecting the events of one run.
@@ -153,8 +154,11 @@ func traceOne(id int, src string, mode Mode, prog *vm.Program, e *Env, asg EnvAs
 func runRecord(args []string) int {
 	in, out, sumPath, modesArg := "", "", "", "struct:noopt"
 	every, maxRuns := 1, 1000000
+	wfOnly := false
 	for i := 0; i+1 < len(args); i += 2 {
 		switch args[i] {
+		case "-wfonly": // one line per compiled program, no run
+			wfOnly = args[i+1] == "1"
 		case "-in":
 			in = args[i+1]
 		case "-out":
@@ -215,6 +219,17 @@ func runRecord(args []string) int {
 		for _, m := range modes {
 			prog, cg := CompileMode(c.Src, m)
 			if cg != nil {
+				continue
+			}
+			if wfOnly {
+				ap := AbsProg(prog)
+				if !progInUniverse(ap) {
+					skipped++
+					continue
+				}
+				runs++
+				enc.Encode(TraceRun{Run: runs, Src: c.Src, Mode: m.String(), Prog: ap, Env: EnvAsg{}, Events: []Event{},
+					End: EndEvent{Ok: true, Out: Val{T: "nil"}}, Calls: []CallRec{}, PostStk: -1, WfOnly: true})
 				continue
 			}
 			for _, rc := range c.Runs {
